@@ -41,6 +41,11 @@ def mk_history_judge(prop):
         return ("ok", None)
     return j
 
+def judge_panic(case, impl, model, spec):
+    if impl.startswith("PANIC"):
+        return ("violation", "the implementation panicked on this input")
+    return ("correspondence", "implementation and model differ on this hostile input, but the implementation did not panic")
+
 COMMON_TRUSTED = [
     "Coq 8.16.1 kernel (coqc); vm_compute for finite sweeps and case evaluation; no native_compute",
     "axioms: none (every property theorem is 'Closed under the global context')",
@@ -105,6 +110,26 @@ def r_c14(toks):
     return f"{'run_pes' if toks[0] == 'PES' else 'run_ppc'} false {hex_to_coq(toks[1])}"
 
 PROPS = {
+    "C01": dict(
+        props_files=["Props/C01.v"],
+        suites=["C01"],
+        fuzzing=True,
+        render=r_stream,
+        judge=judge_panic,
+        judge_always=True,
+        coq_sample=6,
+        rule="valid multi-program streams (with repeated tables) under five kinds of hostile edit: none; 1..11 length-like bytes "
+             "steered to boundary values (adaptation_field_length 0/1/181..184/255, pointer_field, section_length, 12-bit lengths, PES "
+             "header length, adaptation control, sync byte, single bit flips); dropped / duplicated / swapped packets; table PIDs "
+             "flooded with section-shaped junk of boundary lengths, half with a valid CRC; pure random packets; plus truncation and "
+             "unaligned junk inserted between packets; the repository's own fuzz corpus; random byte strings; five chunking styles "
+             "(whole, per packet, random aligned, random unaligned 1..700 bytes, byte-by-byte); every case with the deep observer "
+             "(every accessor and Debug rendering of every packet, adaptation field, PES header, PMT, stream and descriptor handed "
+             "to a call-back) and in both the normal and the cfg(fuzzing) build, under catch_unwind; distinct = distinct case lines",
+        trusted=["the panic sites of the modelled functions are the checked operations of coq/Model/*.v (hand-transcribed; compared with the code by the correspondence on hostile input in both cfgs)",
+                 "log::warn! side effects and the content of Debug strings are outside the model"],
+        assumptions=["construct() and consumers do not panic themselves and queue changes only as scripted", "theorem C01_push_total is for the shallow observer; accessor totality is by the exactness theorems C12-C17"],
+    ),
     "C05": dict(
         props_files=["Props/C05.v"],
         suites=["C05"],
